@@ -52,25 +52,29 @@ class Ctx:
         self.broken.append({"what": what, "detail": str(detail)[-4000:]})
 
     # ---- proof stage ---------------------------------------------------------------------
-    def proofs(self, extra_obligations=0):
-        """Stage P: build props/<pid>.vo from the current gen/ files, check Print Assumptions."""
-        r = coqrun.check_props(self.pid)
+    def proofs(self, extra_obligations=0, part=None):
+        """Stage P: build props/<pid>.vo from the current gen/ files, check Print Assumptions.
+        `part` names a further property file of the same property (props/<part>.v, e.g. C02x), checked on its own
+        so that a failure there leaves the base file's obligations counted as discharged."""
+        pid = part or self.pid
+        r = coqrun.check_props(pid)
         thms = [t for t in r["theorems"] if t["kind"] == "Theorem"]
         self.coverage["obligations"] += len(thms) + extra_obligations
-        self.coverage["checker_cmd"] = r["cmd"] + " && coqc -Q . IPV8V props/%s.v  (Print Assumptions parsed)" % self.pid
-        self.extra["theorems"] = r["theorems"]
-        self.extra["proof_wall_s"] = round(r["wall_s"], 1)
+        cmd = r["cmd"] + " && coqc -Q . IPV8V props/%s.v  (Print Assumptions parsed)" % pid
+        self.coverage["checker_cmd"] = (self.coverage.get("checker_cmd") + " && " if part and self.coverage.get("checker_cmd") else "") + cmd
+        self.extra["theorems"] = (self.extra.get("theorems", []) if part else []) + r["theorems"]
+        self.extra["proof_wall_s"] = round((self.extra.get("proof_wall_s", 0) if part else 0) + r["wall_s"], 1)
         if r["ok"]:
             self.coverage["discharged"] += len(thms) + extra_obligations
         else:
             self.broke("proof obligation failed: %s" % r["failed"], r["log"])
         if r["ok"] and not self.quick:
-            ok2, axioms, summary = coqrun.coqchk(self.pid)
-            self.extra["coqchk"] = {"ok": ok2, "axioms": axioms, "summary": summary}
-            self.coverage["checker_cmd"] += " && coqchk -o -Q . IPV8V IPV8V.props.%s" % self.pid
+            ok2, axioms, summary = coqrun.coqchk(pid)
+            self.extra["coqchk" + ("_" + part if part else "")] = {"ok": ok2, "axioms": axioms, "summary": summary}
+            self.coverage["checker_cmd"] += " && coqchk -o -Q . IPV8V IPV8V.props.%s" % pid
             if not ok2 or [a for a in axioms if a not in coqrun.ALLOWED_AXIOMS]:
                 self.broke("coqchk does not accept the development or reports axioms", summary)
-        hits = coqrun.grep_forbidden(self.pid)
+        hits = coqrun.grep_forbidden(pid)
         if hits:
             self.broke("forbidden declaration in development", "\n".join(hits))
         return r["ok"]
